@@ -238,3 +238,92 @@ func (qc *quoteCheck) write(in ssa.Instruction, scr ssa.Value, set ivset, depth 
 	}
 	return wrote
 }
+
+// rootInferenceRule (C13.R5): the reader half of the formatter's omission of the `schema { ... }` block. FormatSchema
+// leaves the block out when every root has its default name (and prints schema directives as `extend schema @d`); the
+// loader must then infer the roots from the default names whenever there is no schema *definition* — whatever
+// extensions exist. The three inference stores `schema.X = schema.Types["X"]` in ValidateSchemaDocument are therefore
+// guarded by exactly: no schema definition, root X not set, type X exists (and by checks that passed).
+func rootInferenceRule(c *Ctx, r *RuleResult) {
+	p := c.P
+	vsd := p.Func("validator.ValidateSchemaDocument")
+	schemaT := p.LookupType("ast", "Schema")
+	if vsd == nil || schemaT == nil {
+		r.AnchorLost("validator.ValidateSchemaDocument / ast.Schema")
+		return
+	}
+	found := 0
+	for _, root := range []string{"Query", "Mutation", "Subscription"} {
+		for _, st := range storesToField([]*ssa.Function{vsd}, schemaT, root) {
+			lk, ok := stripChange(st.store.Val).(*ssa.Lookup)
+			if !ok {
+				continue
+			}
+			key, isConst := constString(lk.Index)
+			if !isConst || !loadOfField(lk.X, "Schema", "Types") {
+				continue
+			}
+			found++
+			site := "inference of Schema." + root + " at " + p.Pos(st.store.Pos())
+			if key != root {
+				r.Fail(st.store.Pos(), p.FuncName(vsd), "root "+root+" inferred from type "+key, "the default name of the "+root+" root is "+root)
+				continue
+			}
+			want := map[string]bool{
+				"len(SchemaDocument.Schema) == 0":            false,
+				"Schema." + root + " == nil":                 false,
+				fmt.Sprintf("lookup(Schema.Types[%q]) != nil", root): false,
+			}
+			var extra []string
+			for _, cd := range condsAt(st.store.Block()) {
+				// a check that passed: the other side can only fail
+				if ifb := cd.At; ifb != nil && len(ifb.Succs) == 2 {
+					other := ifb.Succs[0]
+					if cd.True {
+						other = ifb.Succs[1]
+					}
+					if failOnly(other) {
+						continue
+					}
+				}
+				if structuralGuard(cd) {
+					continue // loop bounds, type switches
+				}
+				d := guardDesc(cd)
+				if bo, isB := cd.V.(*ssa.BinOp); isB && d == "lookup(Schema.Types) != nil" {
+					for _, o := range []ssa.Value{bo.X, bo.Y} {
+						if l2, isL := stripChange(o).(*ssa.Lookup); isL {
+							if k2, isC := constString(l2.Index); isC {
+								d = fmt.Sprintf("lookup(Schema.Types[%q]) != nil", k2)
+							}
+						}
+					}
+				}
+				if _, ok := want[d]; ok {
+					want[d] = true
+				} else {
+					extra = append(extra, d)
+				}
+			}
+			var missing []string
+			for d, seen := range want {
+				if !seen {
+					missing = append(missing, d)
+				}
+			}
+			sort.Strings(missing)
+			sort.Strings(extra)
+			switch {
+			case len(extra) > 0:
+				r.Fail(st.store.Pos(), p.FuncName(vsd), "inference of Schema."+root+" also depends on "+strings.Join(extra, "; "), "FormatSchema omits the schema block whenever the roots have their default names and prints schema directives as an extension: a loader that does not infer the roots under this extra condition reloads the formatted schema without them")
+			case len(missing) > 0:
+				r.Fail(st.store.Pos(), p.FuncName(vsd), "inference of Schema."+root+" is not guarded by "+strings.Join(missing, "; "), "roots would be inferred although a schema definition exists or the root is already set: the reloaded schema has roots the original did not have")
+			default:
+				r.OK(site, "guarded by exactly: no schema definition, root unset, type exists")
+			}
+		}
+	}
+	if found == 0 {
+		r.AnchorLost("stores schema.X = schema.Types[\"X\"] in ValidateSchemaDocument")
+	}
+}
